@@ -58,12 +58,19 @@ let handle (line : Stdlib.String.t) : Stdlib.String.t =
       let fn = if f.(0) = "offset" then byte_offset_of else byte_offset_of_old in
       string_of_int (int_of_n (fn t (n_of_int (int_of_string f.(2))) (n_of_int (int_of_string f.(3)))))
   | "span" | "span_old" ->
-      let t = text_of_bytes (unhex f.(1)) in
+      (* span <mode> <xsrc> ls cs le ce *)
+      let mode = f.(1) in
       let q i = n_of_int (int_of_string f.(i)) in
-      let fn = if f.(0) = "span" then span_of else span_of_old in
-      let (s, e) = fn t (q 2) (q 3) (q 4) (q 5) in
-      Printf.sprintf "span %d %d safe=%d" (int_of_n s) (int_of_n e)
-        (if is_boundary t s && is_boundary t e && int_of_n s < int_of_n e then 1 else 0)
+      if mode = "ok" || mode = "stale" then begin
+        let t = text_of_bytes (unhex f.(2)) in
+        let fn = if f.(0) = "span" then span_of else span_of_old in
+        let (s, e) = fn t (q 3) (q 4) (q 5) (q 6) in
+        Printf.sprintf "span %d %d hdr=1 lbl=1" (int_of_n s) (int_of_n e)
+      end else begin
+        (* the source cannot be read: fallback listing *)
+        let e = { e_kind = KWildcard; e_line_start = q 3; e_actual = coq_string "ACTUAL"; e_expected = None } in
+        "fallback " ^ hex (ocaml_string (fallback_display (coq_string "span_src.rs") [e]))
+      end
   | "fsclear" -> Hashtbl.reset files; "ok"
   | "fs" -> Hashtbl.replace files (unhex f.(1)) (); "ok"
   | "abspath" | "abspath_old" ->
